@@ -58,7 +58,7 @@ def run(tier, seed):
                for r in rows[:: max(1, len(rows) // 6)][:6]]
     cov = {"states": g.distinct, "transitions": g.generated, "traces_validated_against_impl": stats["evaluations"],
            "samples": samples, "evaluations": stats["evaluations"], "distinct_nontrivial": len(stats["nontrivial"]),
-           "rule": "documents = root (as shipped and as 2.root.json), timestamp, snapshot, targets (with custom data and delegations), delegated targets, each carrying unknown members at every object level that has a catch-all map; mutants = at every position of every signed portion: change of each scalar, deletion of each member / last array element, insertion of an unknown member into each struct-like object, plus re-ordering, re-formatting, an extra signature entry, a rewritten role tag, snapshot<->timestamp swapped between roles sharing a key, and foreign members at the two levels without a catch-all map; each is served with the original signatures through load(); non-trivial = every mutant (distinct by role, position, kind)",
+           "rule": "documents = root (as shipped and as 2.root.json), timestamp, snapshot, targets (with custom data and delegations), delegated targets, each carrying unknown members at every object level that has a catch-all map; mutants = at every position of every signed portion: change of each scalar, deletion of each member / last array element, insertion of an unknown member into each struct-like object, plus re-ordering, re-formatting, an extra signature entry, a rewritten role tag, snapshot<->timestamp swapped between roles sharing a key (through load(), also with a timestamp that lists every file a snapshot lists so that nothing later in the load can mask an accepted swap, and at Root::verify_role for every ordered pair of online role types under one shared key), and foreign members at the two levels without a catch-all map; each is served with the original signatures through load(); non-trivial = every mutant (distinct by role, position, kind)",
            "exhaustive": True}
     return v.finish("model_checking", cov, ["TLC checks the abstract argument (verification over the re-serialised parse) per position class and mutation kind and supplies the expected verdicts; which fields of the Rust structs survive re-serialisation is decided by the replay at every concrete position, not by TLC",
                                             "F11 (no catch-all map on Delegations / DelegatedRole) is a recorded finding"])
